@@ -183,7 +183,7 @@ def shard(i, n, tier, seed, rec, hb):
     fuzz_stage(i, n, tier, seed, rec, hb)
 
 
-def fuzz_stage(i, n, tier, seed, rec, hb):
+def fuzz_stage(i, n, tier, seed, rec, hb, prop="C06"):
     """Coverage-guided mutation of the corpus (atheris), judged by run_one."""
     import json
     import shutil
@@ -195,7 +195,7 @@ def fuzz_stage(i, n, tier, seed, rec, hb):
     try:
         p = subprocess.Popen(
             [common.PY, "-m", "vlib.fuzz_c06", "--shard", str(i), "--seed", str(seed),
-             "--runs", str(runs), "--out", out, "--work", work],
+             "--runs", str(runs), "--out", out, "--work", work, "--prop", prop],
             cwd=common.VERIF, stdout=subprocess.DEVNULL, stderr=subprocess.PIPE,
             text=True)
         import threading
